@@ -1,11 +1,24 @@
 (* C01/Run.v -- correspondence entry point: build a parser from the user's
-   grammar, report is_ambiguous and the raw parse tree of each token list. *)
+   grammar, report is_ambiguous and the raw parse tree of each token list.
+   [GrammarV] additionally evaluates the hypotheses of the soundness theorem
+   (validator [fact_ok] of the factorization etc.) on the grammar at hand and,
+   on request, shows the factorized grammar.  No proofs in this file. *)
 From Coq Require Import ZArith List Bool.
-From AK Require Export LLP.Build.
+From AK Require Export LLP.Build C01.Spec.
 Import ListNotations.
+
+(* the hypotheses of C01's parse_sound_build, as one executable check:
+   the factorization is validated against the user's grammar, no suffix symbol
+   is a terminal, the start symbol is one of the user's symbols *)
+Definition hyps_ok (ug : ugrammar) (start : sym) (p : parser) : bool :=
+  fact_ok ug (p_grammar p) (p_sfxs p)
+  && forallb (fun s => negb (mem s (p_terminals p))) (p_sfxs p)
+  && mem start (map fst ug).
 
 Inductive case :=
 | Grammar (ug : list (sym * list (list sym))) (terminals : list sym) (smart : bool) (start : sym)
+          (fuel : nat) (inputs : list (list (sym * list Z)))
+| GrammarV (diag : bool) (ug : list (sym * list (list sym))) (terminals : list sym) (smart : bool) (start : sym)
           (fuel : nat) (inputs : list (list (sym * list Z))).
 
 Definition run (c : case) : sx :=
@@ -15,6 +28,15 @@ Definition run (c : case) : sx :=
       | Err e => SL [SZ 1; SZ (err_code e)]
       | Ok p =>
           SL [SZ 0; sx_bool (is_ambiguous (p_tables p));
+              SL (map (fun inp => sx_res sx_tree (p_parse p fuel (mk_toks inp))) inputs)]
+      end
+  | GrammarV diag ug terminals smart start fuel inputs =>
+      match build ug terminals smart start with
+      | Err e => SL [SZ 1; SZ (err_code e)]
+      | Ok p =>
+          SL [SZ 0; sx_bool (is_ambiguous (p_tables p));
+              sx_bool (hyps_ok ug start p);
+              (if diag then SL [sx_grammar (p_grammar p); sx_list sx_str (sort_syms (p_sfxs p))] else SL []);
               SL (map (fun inp => sx_res sx_tree (p_parse p fuel (mk_toks inp))) inputs)]
       end
   end.
